@@ -227,6 +227,7 @@ func scenModes(out *scenOut, r *rng, thorough bool) {
 	for _, cause := range []string{"kill", "ctx"} {
 		termDuringStartup(out, cause, true) // (child process; reports under C04 and C05)
 	}
+	modesMethodsDuringStartup(out)
 	for rep := 0; rep < reps; rep++ {
 		for bits := 0; bits < 32; bits++ {
 			o := modeOpts{alt: bits&1 != 0, cell: bits&2 != 0, all: bits&4 != 0, nopaste: bits&8 != 0, focus: bits&16 != 0}
@@ -399,5 +400,52 @@ func modesOnce(out *scenOut, o modeOpts, ek string, hist []int) {
 	}
 	if len(t.unknown) > 0 {
 		out.fail(finding{Property: "C05", Class: "harness", What: "output outside the VT alphabet", Input: desc, Observed: strings.Join(t.unknown, ",")})
+	}
+}
+
+// modesMethodsDuringStartup: the (deprecated but public) Program methods EnterAltScreen /
+// EnableMouseAllMotion are called from another goroutine after Run has been entered and before it
+// has created its renderer: they record the request in the start-up options, and Run must honour
+// it like an option given to NewProgram.
+func modesMethodsDuringStartup(out *scenOut) {
+	ctl := newRecCtl()
+	buf := &safeBuffer{}
+	reached := make(chan struct{})
+	goOn := make(chan struct{})
+	var once int32
+	tea.VerifPauseHook = func(where string) {
+		if where == "su: sigHandler" && atomic.CompareAndSwapInt32(&once, 0, 1) {
+			close(reached)
+			<-goOn
+		}
+	}
+	defer func() { tea.VerifPauseHook = nil }()
+	run := startProgram(ctl, buf, tea.WithInput(nil), tea.WithoutSignalHandler(), tea.WithFPS(120))
+	desc := "Program.EnterAltScreen() and Program.EnableMouseAllMotion() called while Run is at its first start-up stage (no renderer yet)"
+	select {
+	case <-reached:
+	case <-time.After(3 * time.Second):
+		run.p.Kill()
+		run.wait(3 * time.Second)
+		return
+	}
+	run.p.EnterAltScreen()
+	run.p.EnableMouseAllMotion()
+	close(goOn)
+	run.p.Send(userMsg{0, 0})
+	waitFor(2*time.Second, func() bool { return ctl.log.has("update-exit", "u0.0") })
+	time.Sleep(30 * time.Millisecond)
+	out.record("methods-during-startup", desc)
+	t := newVterm(80, 24)
+	t.write([]byte(buf.String()))
+	want := modeSpec{hidden: true, alt: true, paste: true, m1003: true, m1006: true}
+	if got := vtModes(t); got != want.String() {
+		out.fail(finding{Property: "C12", Class: "new", What: "terminal modes differ from what options and commands asked for (mode methods called during start-up)", Input: desc,
+			Expected: want.String(), Observed: got})
+	}
+	run.p.Quit()
+	if !run.wait(4 * time.Second) {
+		run.p.Kill()
+		run.wait(3 * time.Second)
 	}
 }
